@@ -127,7 +127,14 @@ def build_system(sd, types=None):
                     if sp is not None and sp == specs[-1]: table[types[i], types[j]] = mk(sp)
         else:
             for (i, j), sp in zip(pairs_of(n), specs):
-                if sp is not None: o_ = mk(sp); table[fresh(types[i]), fresh(types[j])] = o_; scramble(o_)
+                if sp is None: continue
+                if key == 'pot' and sd.get('late_sigma') and sp[1] is not None:
+                    # the pair is first given the potential with ANOTHER contact distance; the stored object's documented attribute is then edited
+                    # (sys.potential['A','B'].sigma = 1.25): the value at the time of createPRISM counts
+                    o_ = mk([sp[0], sp[1] * 0.8] + list(sp[2:])); table[fresh(types[i]), fresh(types[j])] = o_; scramble(o_)
+                    table[types[i], types[j]].sigma = sp[1]
+                    continue
+                o_ = mk(sp); table[fresh(types[i]), fresh(types[j])] = o_; scramble(o_)
     return s
 
 def eff_dr(sd):
@@ -326,6 +333,11 @@ def gen_system(rng, maxn=3, maxL=32, soft_ok=True, distinct=True):
         for t in range(k): sd['dens'][t] = sd['dens'][0]
         sd['dens_group'] = True
     how = rng.random()
+    if how > 0.7:
+        sd['late_sigma'] = True          # explicit contact distances edited on the stored objects after assignment
+        for (i, j) in pairs_of(n):
+            pt = sd['pairs']['%d%d' % (i, j)]['pot']
+            if pt[1] is None and rng.random() < 0.7: pt[1] = float('%.6g' % ((diam[i] + diam[j]) / 2 * rng.choice([1.0, 1.0, 0.9, 1.1])))
     if n >= 2 and how < 0.35:
         # the same sigma-less potential (and the same closure) for several pairs, reaching the tables as ONE object assigned pair by pair
         # or through setUnset: sigma must still come out per pair from the diameters
